@@ -159,7 +159,7 @@ harnesses! {
         forget(a); forget(b);
     }
     // ---- real constructors (table generation, kernel selection) size everything alike
-    #[kani::unwind(30)]
+    #[kani::unwind(44)]
     #[kani::stub(rubato::CpuFeature::is_detected, crate::stubs::not_detected)]
     fn c17_real_new_8(nd) {
         use rubato::{SincInterpolationParameters, WindowFunction};
@@ -169,6 +169,36 @@ harnesses! {
             interpolation: SincInterpolationType::Linear, window: WindowFunction::Hann };
         let a = SincFixedOut::<f32>::new(1.0, 1.0, p32, 2, 1).unwrap();
         let b = SincFixedOut::<f64>::new(1.0, 1.0, p64, 2, 1).unwrap();
+        ctrl!(a, b, "C17.control_getters[base]");
+        forget(a); forget(b);
+    }
+    // the same with the table contents stubbed (unit table): the sizing decisions of
+    // make_interpolator / the constructors are what is compared, cheaply
+    #[kani::unwind(44)]
+    #[kani::stub(rubato::CpuFeature::is_detected, crate::stubs::not_detected)]
+    #[kani::stub(rubato::sinc::make_sincs, crate::stubs::make_sincs_unit)]
+    fn c17_ctor_sizes_8(nd) {
+        use rubato::{SincInterpolationParameters, WindowFunction};
+        let p32 = SincInterpolationParameters { sinc_len: 8, f_cutoff: 0.9, oversampling_factor: 2,
+            interpolation: SincInterpolationType::Linear, window: WindowFunction::Hann };
+        let p64 = SincInterpolationParameters { sinc_len: 8, f_cutoff: 0.9, oversampling_factor: 2,
+            interpolation: SincInterpolationType::Linear, window: WindowFunction::Hann };
+        let a = SincFixedOut::<f32>::new(1.0, 1.0, p32, 2, 1).unwrap();
+        let b = SincFixedOut::<f64>::new(1.0, 1.0, p64, 2, 1).unwrap();
+        ctrl!(a, b, "C17.control_getters[base]");
+        forget(a); forget(b);
+    }
+    #[kani::unwind(44)]
+    #[kani::stub(rubato::CpuFeature::is_detected, crate::stubs::not_detected)]
+    #[kani::stub(rubato::sinc::make_sincs, crate::stubs::make_sincs_unit)]
+    fn c17_ctor_sizes_20(nd) {
+        use rubato::{SincInterpolationParameters, WindowFunction};
+        let p32 = SincInterpolationParameters { sinc_len: 20, f_cutoff: 0.9, oversampling_factor: 1,
+            interpolation: SincInterpolationType::Nearest, window: WindowFunction::Hann };
+        let p64 = SincInterpolationParameters { sinc_len: 20, f_cutoff: 0.9, oversampling_factor: 1,
+            interpolation: SincInterpolationType::Nearest, window: WindowFunction::Hann };
+        let a = SincFixedIn::<f32>::new(1.0, 1.0, p32, 2, 1).unwrap();
+        let b = SincFixedIn::<f64>::new(1.0, 1.0, p64, 2, 1).unwrap();
         ctrl!(a, b, "C17.control_getters[base]");
         forget(a); forget(b);
     }
